@@ -47,6 +47,36 @@ T = {
  "C19-2": ("C19", "unconditional extern crate alloc for the Header Debug impl", "build against core alone (no alloc in the sysroot)"),
  "C20-1": ("C20", "trim recomputed after every value line over the whole value so far", "folding on; one header with a long run of whitespace-only folded lines: quadratic, no cursor movement"),
  "C20-2": ("C20", "NUL re-check of ignored lines against a stale line start", "ignore-invalid option; long run of consecutive ignored lines: quadratic, no cursor movement"),
+ "C01-r2-1": ("C01", "header-name tail does one aligned 8-byte load past the data when fewer than 8 bytes remain and the cursor is 8-aligned (count not clamped)", "name tail at an 8-aligned address: reads up to 7 bytes behind the buffer but never across a page; visible as a cursor overflow only when truncated inside a name with token bytes behind the buffer"),
+ "C01-r2-2": ("C01", "peek_ahead dereferences the byte at `end` when n == len()", "exactly the 4 bytes POST remaining at the method: 1-byte over-read (SIGSEGV at a page end)"),
+ "C02-r2-1": ("C02", "2x-unrolled 64-byte AVX2 value loop uses the lower half's HTAB mask for the upper half", "AVX2, >= 64 bytes of data at the value scan, HTAB in bytes 32..63: Complete head becomes Err once a body follows"),
+ "C02-r2-2": ("C02", "chunk-size extension fast-forward loses the Partial between CR and LF", "chunk-size line with an extension split exactly after its CR: Err, then Complete"),
+ "C03-r2-1": ("C03", "merged CR/LF arms of the head terminator peek for an LF without requiring the CR", "head ending in a bare-LF empty line directly followed by LF: n one too large"),
+ "C03-r2-2": ("C03", "lone CR tolerated inside a chunk extension (the byte after it is already consumed)", "CR CR LF inside an extension: terminator skipped, Partial although a CRLF is present"),
+ "C04-r2-1": ("C04", "POST fast path returns the literal \"POST\"", "request starting with `POST `: method slice points into static data (content identical)"),
+ "C04-r2-2": ("C04", "assume_init_slice / parse_response_with_uninit_headers lose the 'headers lifetime", "client program keeping response.headers after the uninit array is gone compiles"),
+ "C05-r2-1": ("C05", "ASCII fast path for the target checks whole 8-byte chunks only", "target of length >= 8 and not a multiple of 8 with ill-formed UTF-8 in its last len%8 bytes: invalid &str"),
+ "C05-r2-2": ("C05", "ignored header's folded continuation lines swallowed without NUL / bare-CR checks", "ignore-invalid + folding in responses; NUL or bare CR on a SP-led line after a dropped line"),
+ "C06-r2-1": ("C06", "fast paths stop using the committed start and skip_empty_lines stops committing", "leading empty line + a method other than GET/POST: method slice includes the CR/LF"),
+ "C06-r2-2": ("C06", "target UTF-8 validated before the delimiter is seen", "buffer ending inside a multi-byte character of the target: Err instead of Partial"),
+ "C08-r2-1": ("C08", "empty-value branch slices before the LF of a CRLF is consumed", "header with empty / whitespace-only value ended by CRLF followed by another header: next name starts with LF"),
+ "C08-r2-2": ("C08", "first value byte test `b > b' '`", "DEL as the first byte of a value"),
+ "C11-r2-1": ("C11", "tens and ones digits of the code range-tested together", "response buffer ending two bytes into the code, the second not a digit: Partial"),
+ "C11-r2-2": ("C11", "CR/LF pairing of leading empty lines checked only once the run has ended", "buffer consisting only of leading CR/LF bytes with CR CR: Partial"),
+ "C12-r2-1": ("C12", "all-letters SWAR fast path in the header-name scanner tests lanes 1..7 for <= 26", "'[' or '{' in lanes 1..7 of an 8-byte block whose other bytes are letters"),
+ "C12-r2-2": ("C12", "NEON name bitmap range `*..=.` includes ','", "',' inside a full 16-byte NEON block (aarch64 only; here through the intrinsic emulation)"),
+ "C13-r2-1": ("C13", "runtime detection asks for avx instead of avx2 but still caches AVX2", "CPU with AVX and SSE4.2 but no AVX2: AVX2 backend entered"),
+ "C13-r2-2": ("C13", "SSE4.2 value scanner jumps to the next 32-byte boundary after validating 16 bytes", "SSE4.2 backend, scan position with p%32 < 16, >= 32 bytes left: result depends on buffer alignment"),
+ "C14-r2-1": ("C14", "spaces-after-name loop hands a stale byte to the ignored-line skipper", "spaces-after-name + ignore-invalid; exactly one blank after the name followed by NUL / bare CR / LF"),
+ "C14-r2-2": ("C14", "ignored-line skipper also drops the following SP/HTAB-led lines when folding is on", "folding + ignore-invalid (+ space-before-first): kept header lost, or error kind changed"),
+ "C16-r2-1": ("C16", "Response::parse_with_config resets the whole value on Err", "input that errors after part of the status line was parsed: fields differ between init and uninit entry points"),
+ "C16-r2-2": ("C16", "Response::parse clears version/code/reason before delegating", "re-used Response that already carries fields and a call that stops early: entry points disagree"),
+ "C17-r2-1": ("C17", "slot taken before the fold look-ahead", "folding + ignore-invalid; folded header whose continuation is invalid: unwritten slot exposed, later headers one slot too far"),
+ "C17-r2-2": ("C17", "empty-value store path continues when the array is full", "array exactly full and a surplus header line with an empty value: Complete with a dropped header"),
+ "C18-r2-1": ("C18", "reason assigned only if none is set when the status line has no reason", "earlier call that got past a non-empty reason, then a probe whose status line ends after the code"),
+ "C18-r2-2": ("C18", "value length reused from the old slot when name and value start at the same addresses", "same bytes at the same address parsed earlier under a config that ends the value elsewhere"),
+ "C20-r2-1": ("C20", "each chunk-extension byte searches ahead for the next CR", "Partial input `1;` + N non-CR bytes: quadratic through as_ref, no cursor movement"),
+ "C20-r2-2": ("C20", "header-name scanner falls through to a tail matcher that always walks its whole argument", "many small headers in one buffer: quadratic"),
 }
 
 results = {}
